@@ -166,10 +166,11 @@ Theorem check_t2k_sound : forall px py pz qx qy qz a e i Om om E,
 Proof. exact check_t2k_sound_thm. Qed.
 Print Assumptions check_t2k_sound.
 
-(* ---- the regenerated constant: [GM] default of constant.txt is the IERS Conventions (2010) value, and positive *)
-Theorem gm_is_iers2010_value : (GM_Q == 398600441800000 # 1)%Q /\ 0 < Q2R GM_Q.
-Proof. exact (conj gm_value gm_pos). Qed.
-Print Assumptions gm_is_iers2010_value.
+(* ---- the regenerated constant: [GM] default of constant.txt is positive (the hypothesis 0 < GM of every theorem above
+   holds for the value the library uses; its value is free - other gravity models are legitimate) *)
+Theorem gm_positive : 0 < Q2R GM_Q.
+Proof. exact gm_pos. Qed.
+Print Assumptions gm_positive.
 
 (* ---- non-vacuity: a GPS-like orbit lies in the domain; the checks accept a correct answer and reject a wrong one *)
 Example domain_inhabited : elliptic_inclined (Kep 26559700 (1 / 100) (PI / 3) 1 4 (-2)).
